@@ -599,10 +599,10 @@ func (sc *serverConn) handleStreams() {
 	// A GOAWAY that carries no reference has nothing to wait for and nothing to
 	// close on either: those paths break the loop where they send it.
 	canCloseAfterGoAway := func() bool {
+		// A reference of 0 is what a GOAWAY sent before any request was opened
+		// carries: no stream is vouched for, so there is nothing to wait for.
+		// Treating it as "not closing" left such a connection open for ever.
 		ref := atomic.LoadUint32(&sc.closeRef)
-		if ref == 0 {
-			return false
-		}
 
 		for _, strm := range strms {
 			if strm.origType == FrameHeaders && strm.ID() <= ref {
